@@ -76,9 +76,31 @@ def contains_inf(e: ast.AST) -> Optional[ast.AST]:
     return None
 
 
+def source_kind(st: ast.stmt, fn: Optional[ast.AST] = None) -> str:
+    """How the infinite value enters an array (independent of the names used)."""
+    val = getattr(st, "value", None)
+    for t in astq.stmt_targets(st):
+        sl = astq.expand(fn, t.slice) if isinstance(t, ast.Subscript) and fn is not None else getattr(t, "slice", None)
+        if isinstance(t, ast.Subscript) and any(isinstance(c, ast.Call) and norm(c.func).split(".")[-1] == "isnan" for c in ast.walk(sl)):
+            return "NaN entries rewritten to inf"
+        if isinstance(t, ast.Subscript) and isinstance(t.slice, ast.Name):
+            return "masked entries set to inf"
+    for c in ast.walk(val) if val is not None else []:
+        if isinstance(c, ast.Call):
+            nm = norm(c.func).split(".")[-1]
+            if nm in ("full", "full_like") and any(is_inf(a) for a in list(c.args) + [k.value for k in c.keywords]):
+                return "array filled with inf"
+            if nm == "where" and any(is_inf(a) for a in c.args):
+                return "where(..., inf)"
+            if nm == "nan_to_num" and any(is_inf(k.value) for k in c.keywords):
+                return "nan_to_num(nan=inf)"
+    return "inf stored"
+
+
 class InfTaint:
     def __init__(self, prog: Program):
         self.prog = prog
+        self.kinds: Dict[str, str] = {}  # source description -> kind description (name-independent, used in finding keys)
         self.returns_inf: Dict[str, List[str]] = {}  # qualname -> source descriptions
         self.sink_params: Dict[str, Dict[str, List[str]]] = {}  # qualname -> param -> chain
         self.ret_params: Dict[str, Set[str]] = {}  # qualname -> params whose values are carried into the return value
@@ -145,7 +167,9 @@ class InfTaint:
                             tgt_names |= astq.target_names(t)
                     inf = contains_inf(val)
                     if inf is not None:
-                        srcs.append(f"`{short(st, 80)}` in {fi.qualname.split(':')[-1]}")
+                        d_ = f"`{short(st, 80)}` in {fi.qualname.split(':')[-1]}"
+                        self.kinds[d_] = f"{source_kind(st, fi.node)} in {fi.qualname.split(':')[-1]}"
+                        srcs.append(d_)
                     for nm in value_carriers(val):
                         if nm in tainted:
                             srcs += tainted[nm]
@@ -279,7 +303,7 @@ class InfTaint:
                             self.touched.append(fi)
                         out.append({
                             "function": fi.qualname,
-                            "construct": f"{short(c, 70)} <- {nm} [inf sources: {'; '.join(sorted(set(srcs)))}]",
+                            "construct": f"{norm(c.func).split('.')[-1]}(cost matrix) [inf sources: {'; '.join(sorted({self.kinds.get(s_, s_) for s_ in srcs}))}]",
                             "where": f"{fi.module.relpath}:{c.lineno}",
                             "message": f"`{nm}` may hold infinite entries ({'; '.join(srcs[:3])}) and reaches "
                                        f"linear_sum_assignment ({' -> '.join(chain)}): scipy raises ValueError('cost matrix is infeasible') "
